@@ -83,7 +83,7 @@ class Rejuvenate(EditRequest):
         new_tr, w, retdiff, bwd_request = request.edit(key, tr, argdiffs)
         assert isinstance(bwd_request, Update)
         bwd_chm = bwd_request.constraint
-        bwd_proposal_args = self.argument_mapping(bwd_chm)
+        bwd_proposal_args = self.argument_mapping(new_tr.get_choices())
         bwd_proposal_score, _ = self.proposal.assess(bwd_chm, bwd_proposal_args)
         final_weight = w + bwd_proposal_score - fwd_proposal_score
         return (
